@@ -84,6 +84,7 @@ def jobs(tier, seed):
                      title="frozen generator table of shape (%d,%d) (used as constants by the sampled decode/reconstruct obligations) == closed form L_j(r)/L_j(k), every entry" % (k, m),
                      functions=[], replaced=[], repo_src=[], harness=["harness/rs_decode.c"], defines={"K": k, "M": m, "MODE": 3}, unwind=34,
                      case={"k": k, "m": m}, expect=["generator table == closed form"], mem_gb=8, timeout=1800, weight=k * k * (k + m)))
+    J += isal_jobs(tier, seed)
     return J
 
 
@@ -105,3 +106,57 @@ def _dec_job(fn, mode, k, m, lo, hi, strength, bound, tier):
                assumptions=[A_GFSPEC, "ghost-cell buffer model: each stripe buffer is one 2-byte object holding its 16-bit word at the ghost index; decode/reconstruct touch buffer contents only through region_dot_product (any other access fails a bounds obligation on the cell)",
                             "algebra not mechanised: decode/reconstruct of a fixed erasure set is a GF(2^16)-linear map of the data (fixed coefficients, region_dot_product contract), so exactness on the k scaled unit vectors implies exactness for all data; the statement holds for every word of a longer buffer because the contract is word-wise"],
                timeout=1800, mem_gb=12 if big else 6, weight=k ** 3 * (hi - lo + 1))
+
+def isal_jobs(tier, seed):
+    """C19: ISA-L adapters against assumed (reference) contracts of the five primitives"""
+    J = []
+    IC, IV, IY = "src/backends/isa-l/isa_l_common.c", "src/backends/isa-l/isa_l_rs_vand.c", "src/backends/isa-l/isa_l_rs_cauchy.c"
+    FN = ["isa_l_common_init", "isa_l_exit", "isa_l_encode", "isa_l_decode", "isa_l_reconstruct", "isa_l_get_decode_matrix", "get_inverse_rows",
+          "mult_and_xor_row", "get_num_missing_elements", "isa_l_min_fragments", "isa_l_element_size", "convert_list_to_bitmap"]
+    A = ["ISA-L primitives gf_mul, gf_gen_rs_matrix/gf_gen_cauchy1_matrix, gf_invert_matrix, ec_init_tables, ec_encode_data behave as the reference implementations in harness/isal.c (GF(2^8)/0x11d; the property's own premise); dlsym returns the same-named function or NULL",
+         "ghost-cell buffer model (one byte per stripe buffer at the ghost index, blocksize symbolic); data = k scaled unit vectors, exactness for all data by GF(2^8)-linearity of a fixed erasure set's decode map (algebra not mechanised)"]
+    nmax = 7 if tier == "thorough" else 6
+    shapes = [(k, m) for k in range(1, nmax) for m in range(1, nmax) if k + m <= nmax]
+    rnd = random.Random(seed * 77 + 3)
+    for gen in ("vand", "cauchy"):
+        dd0 = {"CAUCHY": 1} if gen == "cauchy" else {}
+        src = [IC, IY if gen == "cauchy" else IV]
+        common = dict(props=["C19"], layer="L3", repo_src=src, harness=["harness/isal.c", "harness/stub_env.c"], export_static=True, unwind=40, leak=True,
+                      loop_bounds=[(r"mask <= MHI", 70), (r"c < k \* rows", 32 * 32 + 2), (r"i < n \* n", 32 * 32 + 2)],
+                      functions=FN, replaced=["the five ISA-L primitives (assumed contracts, reference form)", "dlsym (loader contract)"], assumptions=A, object_bits=12)
+        for (k, m) in [(3, 2), (10, 4)]:
+            J.append(Job("isal.init.%s@%d_%d" % (gen, k, m), group="isal.init", strength="Pinf", case={"k": k, "m": m, "gen": gen},
+                         title="isa_l_rs_%s init/exit (%d,%d): any subset of libisal symbols absent, any caller w: refused with nothing left behind or a usable descriptor; element size 8; accepts exactly its own version" % (gen, k, m),
+                         defines=dict(dd0, K=k, M=m, MODE=0), expect=["C13/C17: an incomplete library"], **common))
+        pl = [(3, 2), (4, 2), (10, 4)] if tier == "quick" else [(k, m) for (k, m) in shapes] + [(10, 4), (12, 4), (8, 8)]
+        for (k, m) in pl:
+            J.append(Job("isal.planner.%s@%d_%d" % (gen, k, m), group="isal.planner", strength="B", bound="lists of up to 6 entries each; %d shapes" % len(pl), case={"k": k, "m": m, "gen": gen},
+                         title="isa_l_min_fragments (%s, %d,%d): symbolic request/exclude lists: succeeds iff >= k fragments remain; exactly k increasing in-range indexes disjoint from both lists" % (gen, k, m),
+                         defines=dict(dd0, K=k, M=m, MODE=4, LL=min(6, k + m)), expect=["C19/C06: the query succeeds exactly when"], timeout=900, **common))
+        for (k, m) in shapes + ([(10, 4)] if tier == "quick" else [(10, 4), (12, 4), (8, 4)]):
+            J.append(Job("isal.encode.%s@%d_%d" % (gen, k, m), group="isal.encode", strength="P#" if k + m <= nmax else "B", bound="" if k + m <= nmax else "sampled larger shapes", case={"k": k, "m": m, "gen": gen},
+                         title="isa_l_encode (%s, %d,%d): parity == generator x data on the k scaled unit vectors, data untouched, blocksize symbolic" % (gen, k, m),
+                         defines=dict(dd0, K=k, M=m, MODE=1), expect=["C19/C01: encode writes parity"], **common))
+        for mode, fn, calls in ((2, "decode", 48), (3, "reconstruct", 32)):
+            for (k, m) in shapes:
+                n = k + m
+                per = max(1, calls // (k * (1 if mode == 2 else max(1, m // 2 + 1))))
+                for lo in range(0, 1 << n, per):
+                    hi = min((1 << n) - 1, lo + per - 1)
+                    if any(1 <= bin(x).count("1") <= m for x in range(lo, hi + 1)):
+                        J.append(_isal_job(gen, fn, mode, k, m, lo, hi, "P#", "", common, dd0))
+            for (k, m) in ([(10, 4)] if tier == "quick" else [(10, 4), (6, 5), (12, 4), (8, 8)]):
+                n = k + m
+                for s_ in range(2 if tier == "quick" else 4):
+                    mask = sum(1 << i for i in rnd.sample(range(n), m))
+                    J.append(_isal_job(gen, fn, mode, k, m, mask, mask, "B", "sampled maximal erasure sets (VERIF_SEED) of shapes with k+m > %d on one generic data vector, no injected inversion failure; complete (every erasure set of at most m fragments, every destination) for all shapes with k+m <= %d" % (nmax, nmax), common, dd0))
+    return J
+
+
+def _isal_job(gen, fn, mode, k, m, lo, hi, strength, bound, common, dd0):
+    c = dict(common)
+    return Job("isal.%s.%s@%d_%d.e=%d..%d" % (fn, gen, k, m, lo, hi), group="isal." + fn + ("" if strength == "P#" else ".sampled"), strength=strength, bound=bound,
+               title="isa_l_%s (%s generator, %d,%d), erasure sets with mask in [%d,%d] and |E|<=m, inversion may be made to fail: inversion ok => exact result; inversion fails => error; survivors untouched; nothing leaked" % (fn, gen, k, m, lo, hi),
+               defines=dict(dd0, K=k, M=m, MODE=mode, MLO="%du" % lo, MHI="%du" % hi, **({} if strength == "P#" else {"GENERIC": 1})), case={"k": k, "m": m, "gen": gen, "masks": [lo, hi]},
+               expect=["C19: %s succeeds for every erasure set" % fn],
+               timeout=1800, mem_gb=8 if strength == "P#" else 14, weight=k ** 3 * (hi - lo + 1), **c)
